@@ -521,6 +521,11 @@ def same_tree(real, model):
     return all(same_tree(a, b) for a, b in zip(real[2], model[2]))
 
 
+def first_diff_text(a, b):
+    k = next((j for j in range(min(len(a), len(b))) if a[j] != b[j]), min(len(a), len(b)))
+    return f"at char {k}: ...{a[max(0, k - 30):k + 30]}... vs ...{b[max(0, k - 30):k + 30]}..."
+
+
 def diag_of(obs):
     f = obs.split(" ")
     return (f[1].split("::")[-1], f[2]) if len(f) >= 3 else ("?", "?")
@@ -586,12 +591,40 @@ def run(tier, seed, replay=None):
                 bad.append((i, a, why))
                 break
 
+    # use of an uninitialised value is invisible to ASan/UBSan: the hand-written and seed sources are compiled again in the
+    # opposite order, in processes with another allocator fill and another stack position; an observation that changes
+    # depends on indeterminate memory (the C11 detector, applied to C09's own inputs)
+    nprobe = 0
+    if True:
+        sub = [i for i, k in enumerate(kinds) if k in ("odd", "seed", "replay")]
+        if replay:
+            # a single source has no history: compile a literal-bearing program first, so that stale state has a value to show
+            sources = ["proc main() is 0(12345)"] + sources
+            kinds = ["replay-prefix"] + kinds
+            obs = {a: observe(h, sources, a) for a in ACTIONS}
+            sub = [0, 1]
+        nprobe = len(sub)
+        env2 = dict(os.environ)
+        env2["ASAN_OPTIONS"] = "detect_leaks=0:malloc_fill_byte=165:max_malloc_fill_size=1048576"
+        for k in range(64):
+            env2[f"HEXVERIF_PAD_{k}"] = "x" * 1000
+        for a in ("asm", "bin"):
+            rev = list(reversed(sub))
+            lines = [f"x {a} {sources[i].encode('latin1', 'replace').hex() or '-'}" for i in rev]
+            again = C.drive_parallel(h, lines, workdir=True, env=env2, timeout_per_case=30.0)
+            for i, o2 in zip(rev, again):
+                if o2 != obs[a][i] and not failing(obs[a][i]) and not failing(o2) and not any(b[0] == i for b in bad):
+                    bad.append((i, a, "observation depends on indeterminate memory (uninitialised value): " + first_diff_text(obs[a][i], o2)))
+
     # model tie: tokens, diagnostics of the front end, trees
     tie_bad = []
     tie_checked = 0
     trees_same = trees_skipped = 0
+    pipe = Counter()
+    pipe_bytes = 0
     if drv:
         lex, par = model_lines(drv, sources)
+        runl = C.drive_parallel(drv, ["run " + (s.encode("latin1", "replace").hex() or "-") for s in sources], timeout_per_case=60.0)
         for i, s in enumerate(sources):
             if any(b[0] == i for b in bad):
                 continue
@@ -626,6 +659,26 @@ def run(tier, seed, replay=None):
                         trees_same += 1
             elif mp.startswith("fuel"):
                 tie_bad.append((i, "model-out-of-fuel", rb[:100], mp))
+            # 3. the WHOLE compiler model from the source bytes (Xcmp.runSrc, theorem C09_pipeline_partial): the file image
+            #    byte for byte, or the class of the semantic diagnostic
+            mr = runl[i]
+            pipe[mr.split(" ")[0]] += 1
+            if mr.startswith("image "):
+                real_bin = next((x[4:] for x in rb.split(" ") if x.startswith("bin=")), None) if rb.startswith("ok ") else None
+                if real_bin != mr[6:]:
+                    tie_bad.append((i, "pipeline-image", rb[:300], mr[:300]))
+                else:
+                    pipe_bytes += len(real_bin) // 2
+            elif mr.startswith("compile "):
+                if not rb.startswith("diag") or diag_of(rb)[0] != mr.split(" ")[1].split("::")[-1]:
+                    tie_bad.append((i, "pipeline-diag", rb[:200], mr[:200]))
+            elif mr.startswith("anomaly"):
+                tie_bad.append((i, "pipeline-anomaly", rb[:200], mr[:200]))
+            elif mr.startswith("front"):
+                if not (rb.startswith("diag") and diag_of(rb)[0] in LEX_CLASSES | PARSE_CLASSES):
+                    tie_bad.append((i, "pipeline-front", rb[:200], mr[:200]))
+            else:
+                tie_bad.append((i, "pipeline-driver", rb[:200], mr[:200]))
 
     reported = 0
     seen_why = Counter()
@@ -644,7 +697,8 @@ def run(tier, seed, replay=None):
         i, what, a, b = tie_bad[0]
         rep.violation("correspondence", {"property": PID, "what": what, "source_hex": sources[i].encode("latin1", "replace").hex(),
                                          "source": sources[i][:1000], "implementation": a, "model": b, "count": len(tie_bad),
-                                         "broken": "front-end model (Xcmp/Lexer.lean, Xcmp/Parser.lean) vs xcmp.hpp"}, no_input=True)
+                                         "broken": "front-end model (Xcmp/Lexer.lean, Xcmp/Parser.lean) or whole compiler model "
+                                                   "(Xcmp.runSrc, Properties/C09.lean) vs xcmp.hpp"}, no_input=True)
     if problems:
         rep.violation("proof", {"broken": problems}, no_input=not bad)
     if replay:
@@ -662,8 +716,9 @@ def run(tier, seed, replay=None):
                 "the actions bin/asm/tokens/tree; non-trivial = longer than 3 bytes; distinct by content",
         "samples": [sources[len(ODD) + 3][:200] if len(sources) > len(ODD) + 3 else sources[0], sources[-1][:300], sources[-2][:300]],
         "outcome_classes": dict(cls.most_common(60)), "failing_inputs": len(bad), "failure_classes": dict(seen_why),
-        "model_tie_checked": tie_checked, "model_vs_impl_mismatches": len(tie_bad),
+        "uninitialised_value_probe_sources": nprobe, "model_tie_checked": tie_checked, "model_vs_impl_mismatches": len(tie_bad),
         "tie_mismatch_kinds": dict(Counter(t[1] for t in tie_bad)), "trees_identical": trees_same, "trees_skipped": trees_skipped,
+        "pipeline_model_outcomes": dict(pipe), "pipeline_image_bytes_identical": pipe_bytes,
         "traces_validated_against_impl": tie_checked - len(tie_bad), "lean": info, "wall_run_s": round(time.time() - t0, 1),
     })
     rep.assumptions += ["ASan/UBSan/_GLIBCXX_ASSERTIONS are the detector of undefined behaviour in the real code",
